@@ -16,6 +16,7 @@ horospheres and projective objects in the three affine charts are compared direc
 exact coordinates; the table of rejected dimensions is replayed.
 """
 import json
+import os
 import random
 
 import numpy as np
@@ -36,18 +37,50 @@ def lib_threshold():
 # ----------------------------------------------------------------------------------------
 # TLC runs
 # ----------------------------------------------------------------------------------------
-def path_machine(run):
+class TLCJobs:
+    """The generating TLC runs are independent of each other: they are started together (a few workers each) and
+    collected when their scenes are needed.  Bookkeeping as in core.Run.tlc, done in the main thread."""
+
+    def __init__(self, run):
+        from concurrent.futures import ThreadPoolExecutor
+        self.run = run
+        self.pool = ThreadPoolExecutor(8)
+        self.jobs = {}
+
+    def start(self, module, cfg_text, name, **kw):
+        mod_path = os.path.join(core.SPEC, module)
+        wd = os.path.join(self.run.work, name)
+        self.jobs[name] = (mod_path, self.pool.submit(core.run_tlc, mod_path, cfg_text, wd, seed=self.run.seed, **kw))
+
+    def result(self, name):
+        mod_path, fut = self.jobs[name]
+        r = fut.result()
+        run = self.run
+        run.states += r.distinct
+        run.transitions += r.generated
+        d = r.as_dict()
+        d["module"] = os.path.relpath(mod_path, core.VERIF)
+        d["run"] = name
+        run.tlc_runs.append(d)
+        return r
+
+
+def path_machine(jobs):
     c = core.cfg(constants=dict(MaxNV=8), invariants=["TypeOK", "OneStroke", "InOrder", "NoRepeat", "EdgesOnce", "Complete"])
-    run.tlc("draw/DrawPath.tla", c, name="DrawPath", workers=2)
+    jobs.start("draw/DrawPath.tla", c, "DrawPath", workers=1)
 
 
-def scenes(run, name, threshold, B, core_, maxword, maxverts, simulate=None, depth=None, workers=4):
+def start_scenes(jobs, name, threshold, B, core_, maxword, maxverts, simulate=None, depth=None, workers=2):
     c = core.cfg(constants=dict(N=2, B=B, Threshold=threshold, MaxWord=maxword, MaxVerts=maxverts, Core=core_),
                  invariants=SCENE_INVARIANTS, view="View")
-    r = run.tlc("draw/DrawScene.tla", c, name=name, workers=workers, simulate=simulate, depth=depth)
+    jobs.start("draw/DrawScene.tla", c, name, workers=workers, simulate=simulate, depth=depth)
+
+
+def scenes(jobs, name):
+    r = jobs.result(name)
     seen, out = set(), []
     for e in r.emits:
-        k = (dc.word_key(e["word"]), json.dumps(e["verts"]))
+        k = (dc.word_key(e["word"]), json.dumps(e["verts"]), json.dumps(e.get("win")))
         if k not in seen:
             seen.add(k)
             out.append(e)
@@ -207,6 +240,51 @@ def check_horosphere(run, d, model, scene):
         run.violation(key, "horosphere.circle", dict(model=model, word=scene["word"], centre=scene["verts"][0], through=scene["verts"][1], spec=h, observed=bad))
 
 
+def check_horospheres_composite(run, d, model, batch, rng):
+    """several horospheres drawn in ONE call: every unit is the circle of ITS horosphere (centre and radius together)"""
+    if len(batch) < 2:
+        return
+    H = hc.H()
+    key = "horospheres:%s:%s:%s" % (model, dc.word_key(batch[0]["word"]), json.dumps([s["verts"] for s in batch[:3]], separators=(",", ":")))
+    run.case(key=("horospheres", model, dc.word_key(batch[0]["word"]), json.dumps([s["verts"] for s in batch])), action="draw_horosphere[%s, composite]" % model)
+    run.evaluations += len(batch) - 1
+    want = [(dc.rat2(s["horo"][model]["h"]["c"]), dc.rat(s["horo"][model]["h"]["r"])) for s in batch]
+    data = arr([s["verts"] for s in batch])
+    if len(batch) % 2 == 0 and rng.random() < 0.5:
+        data = data.reshape((2, len(batch) // 2) + data.shape[1:])
+    bad = None
+    try:
+        d.draw_horosphere(H.Horosphere(data))
+        cols, pats = list(d.ax.collections), list(d.ax.patches)
+        if len(cols) != 1 or pats:
+            bad = "expected one ellipse collection, found %d collections and %d patches" % (len(cols), len(pats))
+        else:
+            c = cols[0]
+            off = np.asarray(c.get_offsets(), float)
+            w, hh = np.asarray(c.get_widths(), float), np.asarray(c.get_heights(), float)
+            if off.shape != (len(batch), 2) or w.shape != (len(batch),) or hh.shape != (len(batch),):
+                bad = "expected %d circles, found offsets %r widths %r" % (len(batch), off.shape, w.shape)
+            elif c.get_offset_transform() != d.ax.transData or getattr(c, "_units", "xy") != "xy":
+                bad = "ellipse sizes / offsets are not in data coordinates"
+            else:
+                used = set()
+                for (ctr, r), s in zip(want, batch):
+                    tol = 1e-6 * max(1.0, r, float(np.abs(ctr).max()))
+                    hit = [j for j in range(len(batch)) if j not in used and np.abs(off[j] - ctr).max() <= tol
+                           and abs(w[j] - 2 * r) <= 2 * tol and abs(hh[j] - 2 * r) <= 2 * tol]
+                    if not hit:
+                        j = int(np.argmin(np.abs(off - ctr).max(axis=1)))
+                        bad = "horosphere %r: spec centre %r radius %r; nearest unit of the collection: centre %r diameter %r x %r" % (
+                            s["verts"], ctr.tolist(), r, off[j].tolist(), float(w[j]), float(hh[j]))
+                        break
+                    used.add(hit[0])
+    except Exception as ex:
+        bad = "%s: %s" % (type(ex).__name__, ex)
+    dc.clear(d)
+    if bad:
+        run.violation(key, "horosphere.circle_of_each_unit", dict(model=model, word=batch[0]["word"], horospheres=[s["verts"] for s in batch], observed=bad))
+
+
 def check_vline(run, d, scene):
     """half-plane geodesic with one end at infinity: the vertical half-line over the other end"""
     H = hc.H()
@@ -239,13 +317,14 @@ def replay_scenes(run, rec, scs, rng, point_rate=1.0, batch=40):
     """draw every scene in every model where it is in the domain"""
     groups = {}
     for s in scs:
-        groups.setdefault(dc.word_key(s["word"]), []).append(s)
+        groups.setdefault(dc.word_key(s["word"]) + json.dumps(s.get("win", dc.DEFAULT_WINDOW)), []).append(s)
     for wk in sorted(groups):
         grp = groups[wk]
         word = grp[0]["word"]
+        window = grp[0].get("win", dc.DEFAULT_WINDOW)
         for model in dc.MODELS:
             try:
-                d = dc.make_drawing(model, word, via_constructor=rng.random() < 0.5)
+                d = dc.make_drawing(model, word, via_constructor=rng.random() < 0.5, window=window, rng=rng)
             except Exception as ex:
                 run.violation("drawing:%s:%s" % (model, wk), "raised:drawing", dict(model=model, word=word, error="%s: %s" % (type(ex).__name__, ex)))
                 continue
@@ -267,9 +346,15 @@ def replay_scenes(run, rec, scs, rng, point_rate=1.0, batch=40):
                 for s in ss:
                     if rng.random() < point_rate:
                         check_points(run, d, model, s)
-            for s in grp:
-                if s["horo"][model]["ok"]:
+            hs = [s for s in grp if s["horo"][model]["ok"]]
+            for s in hs:
+                if s["horo"][model]["h"]["kind"] != "circle" or rng.random() < 0.3:
                     check_horosphere(run, d, model, s)
+            circ = [s for s in hs if s["horo"][model]["h"]["kind"] == "circle"]
+            rng.shuffle(circ)
+            for i in range(0, len(circ), 12):
+                check_horospheres_composite(run, d, model, circ[i:i + 12], rng)
+            for s in grp:
                 if model == "halfplane" and s["vline"]["ok"]:
                     check_vline(run, d, s)
             dc.close(d)
@@ -278,10 +363,14 @@ def replay_scenes(run, rec, scs, rng, point_rate=1.0, batch=40):
 # ----------------------------------------------------------------------------------------
 # projective drawings
 # ----------------------------------------------------------------------------------------
-def proj_scenes(run, name, BP, maxverts, simulate=None, depth=None):
+def start_proj_scenes(jobs, name, BP, maxverts, simulate=None, depth=None, workers=2):
     c = core.cfg(constants=dict(BP=BP, MaxVertsP=maxverts),
-                 invariants=["RoundTrip", "Transition", "Collinear", "Invertible", "LinesToLines", "EmitProj"])
-    r = run.tlc("draw/DrawProj.tla", c, name=name, workers=4, simulate=simulate, depth=depth)
+                 invariants=["RoundTrip", "Transition", "Collinear", "Invertible", "LinesToLines", "ScaleFree", "EmitProj"])
+    jobs.start("draw/DrawProj.tla", c, name, workers=workers, simulate=simulate, depth=depth)
+
+
+def proj_scenes(jobs, name):
+    r = jobs.result(name)
     dims = None
     for line in r.stdout.splitlines():
         if line.startswith('"DIMS '):
@@ -290,7 +379,7 @@ def proj_scenes(run, name, BP, maxverts, simulate=None, depth=None):
         raise core.MachineryFailure("no DIMS table")
     seen, out = set(), []
     for e in r.emits:
-        k = json.dumps([e["chart"], e["M"], e["verts"]])
+        k = json.dumps([e["chart"], e["M"], e["verts"], e["rep"]])
         if k not in seen:
             seen.add(k)
             out.append(e)
@@ -316,8 +405,8 @@ def replay_proj(run, rec, scs, rng):
             n = len(s["verts"])
             want = np.array([dc.rat2(c) for c in s["aff"]])
             geom = dict(vc=s["aff"], edges=[dict(kind="line")] * n)
-            key = "proj:%d:%s:%s" % (chart, mk, json.dumps(s["verts"], separators=(",", ":")))
-            data = arr(s["verts"])
+            key = "proj:%d:%s:%d*%s" % (chart, mk, s["rep"], json.dumps(s["verts"], separators=(",", ":")))
+            data = arr(s["verts"]) * float(s["rep"])           # the representatives handed to the library
             # points
             try:
                 dc.plt().sca(d.ax)
@@ -347,8 +436,13 @@ def replay_proj(run, rec, scs, rng):
             if n < 2:
                 continue
             what = "proj_polygon" if n >= 3 else "proj_segment"
+            # a polygon inside chart 0 is drawn the same way when the code is told not to assume it
+            strict = n >= 3 and chart == 0 and s["onesign"] and rng.random() < 0.6
             try:
-                if n >= 3:
+                if strict:
+                    d.draw_polygon(P.Polygon(data), assume_affine=False)
+                    what = "proj_polygon[assume_affine=False]"
+                elif n >= 3:
                     d.draw_polygon(P.Polygon(data))
                 else:
                     d.draw_proj_segment(P.PointPair(data))
@@ -364,8 +458,59 @@ def replay_proj(run, rec, scs, rng):
                 continue
             evs = dc.outline_events("affine", geom, n >= 3, outs[0][1], outs[0][2])
             rec.traces.append(dict(model="affine", word=[], verts=s["verts"], closed=n >= 3, events=evs))
-            rec.meta.append(dict(what=what, artist=outs[0][0], chart=chart, M=M, spec_affine=want.tolist(), expect=["straight"] * n))
+            rec.meta.append(dict(what=what, artist=outs[0][0], chart=chart, M=M, rep=s["rep"], spec_affine=want.tolist(), expect=["straight"] * n))
+        if chart == 0:
+            by_n = {}
+            for s in grp:
+                if len(s["verts"]) >= 3:
+                    by_n.setdefault(len(s["verts"]), []).append(s)
+            for n in sorted(by_n):
+                ss = by_n[n]
+                rng.shuffle(ss)
+                for i in range(0, len(ss) - 1, 6):
+                    proj_array(run, rec, d, M, mk, ss[i:i + 6])
         dc.close(d)
+
+
+def proj_array(run, rec, d, M, mk, batch):
+    """an ARRAY of polygons (representatives of both signs) drawn with assume_affine=False in chart 0: the polygons inside
+    the chart are the paths of the collection, a polygon through the line at infinity is two patches through its vertices"""
+    from geometry_tools import projective as P
+    n = len(batch[0]["verts"])
+    key = "projarray:%s:%s" % (mk, json.dumps([[s["rep"], s["verts"]] for s in batch[:3]], separators=(",", ":")))
+    run.case(key=("projarray", mk, json.dumps([[s["rep"], s["verts"]] for s in batch])), action="proj_polygon[array, assume_affine=False]")
+    run.evaluations += len(batch) - 1
+    data = np.array([arr(s["verts"]) * float(s["rep"]) for s in batch])
+    try:
+        d.draw_polygon(P.Polygon(data), assume_affine=False)
+        paths = [(type(c).__name__, np.asarray(p.vertices, float), None if p.codes is None else np.asarray(p.codes))
+                 for c in d.ax.collections for p in c.get_paths()]
+        pats = [np.asarray(p.get_xy(), float) for p in d.ax.patches]
+    except Exception as ex:
+        run.violation(key + ":raised", "raised:proj_polygon_array", dict(M=M, polygons=[[s["rep"], s["verts"]] for s in batch], error="%s: %s" % (type(ex).__name__, ex)))
+        dc.clear(d)
+        return
+    dc.clear(d)
+    inside = [s for s in batch if s["onesign"]]
+    crossing = [s for s in batch if not s["onesign"]]
+    if len(paths) != len(inside) or len(pats) != 2 * len(crossing):
+        run.violation(key + ":count", "artist.one_outline_per_object",
+                      dict(M=M, polygons=[[s["rep"], s["verts"]] for s in batch], inside_chart=len(inside), through_infinity=len(crossing),
+                           collection_paths=len(paths), patches=len(pats)))
+        return
+    for s, o in zip(inside, paths):
+        geom = dict(vc=s["aff"], edges=[dict(kind="line")] * n)
+        evs = dc.outline_events("affine", geom, True, o[1], o[2])
+        rec.traces.append(dict(model="affine", word=[], verts=s["verts"], closed=True, events=evs))
+        rec.meta.append(dict(what="proj_polygon[array, assume_affine=False]", artist=o[0], chart=0, M=M, rep=s["rep"], expect=["straight"] * n))
+    allp = np.vstack(pats) if pats else np.zeros((0, 2))
+    for s in crossing:
+        for v, c in zip(s["verts"], s["aff"]):
+            w = dc.rat2(c)
+            if not len(allp) or np.abs(allp - w).max(axis=1).min() > 1e-9 * max(1.0, float(np.abs(w).max())):
+                run.violation(key + ":crossing:%s" % json.dumps(s["verts"], separators=(",", ":")), "projective.polygon_through_infinity_at_chart_coordinates",
+                              dict(M=M, polygon=[s["rep"], s["verts"]], vertex=v, spec=w.tolist(), observed="no unbounded patch has a vertex there"))
+                break
 
 
 def wrong_dimension(run, dims):
@@ -469,27 +614,43 @@ def run(run, replay=None):
         "objects: points of the perfect-square integer universe (box entries <= 7, special and band points <= 29; <= 60 after the transformation), polygons with 3..8 "
         "distinct vertices (interior and ideal, convex or not), segments, geodesics, horospheres; transformations: words of length <= 2 in the "
         "exact atoms of HypIso",
-        "half-plane objects inside the default window (|x| <= 6, y <= 8), no vertex at infinity; radius = threshold exactly excluded",
+        "half-plane objects inside the drawing's window (default |x| <= 6, y <= 8; custom xlim/ylim (4,14)x8 and (-20,20)x12 with objects outside the "
+        "default window), no vertex at infinity; radius = threshold exactly excluded; model given as alias string (any case) or enum member",
         "artists of a composite are read in the order of its flattened index; Bezier approximation of circles by matplotlib trusted to 1e-4 r",
         "not covered: rasterisation, styles, 3-D drawings, draw_nonaff_polygon, horoarcs, boundary arcs, CP1 drawings",
     ]
     run.extra["radius_threshold"] = threshold
-    path_machine(run)
+    jobs = TLCJobs(run)
+    path_machine(jobs)
     rec = Recorder(run, rng)
     rec.threshold = threshold
     if quick:
         plan = [dict(name="scenes_pairs", B=5, core_=2, maxword=0, maxverts=2),
+                dict(name="scenes_windows", B=5, core_=5, maxword=0, maxverts=3),
+                dict(name="scenes_words", B=5, core_=6, maxword=2, maxverts=2),
                 dict(name="scenes_triangles", B=5, core_=1, maxword=0, maxverts=3),
                 dict(name="scenes_bands", B=5, core_=4, maxword=0, maxverts=3),
                 dict(name="scenes_sim", B=5, core_=3, maxword=2, maxverts=8, simulate=10, depth=11)]
     else:
         plan = [dict(name="scenes_triangles", B=7, core_=2, maxword=0, maxverts=3),
                 dict(name="scenes_pairs_words", B=5, core_=1, maxword=1, maxverts=2),
+                dict(name="scenes_windows", B=5, core_=5, maxword=0, maxverts=4),
+                dict(name="scenes_words", B=5, core_=6, maxword=3, maxverts=2),
                 dict(name="scenes_bands", B=5, core_=4, maxword=1, maxverts=3),
                 dict(name="scenes_sim", B=7, core_=3, maxword=2, maxverts=8, simulate=150, depth=11)]
+    if quick:
+        pplan = [dict(name="proj_sim", BP=2, maxverts=6, simulate=10, depth=7)]
+    else:
+        pplan = [dict(name="proj_triangles", BP=1, maxverts=3), dict(name="proj_sim", BP=3, maxverts=8, simulate=100, depth=9)]
+    W = 2 if quick else 3
+    for p in plan:
+        start_scenes(jobs, threshold=threshold, workers=W, **p)
+    for p in pplan:
+        start_proj_scenes(jobs, workers=W, **p)
+    jobs.result("DrawPath")
     nsc = 0
     for p in plan:
-        scs = scenes(run, threshold=threshold, **p)
+        scs = scenes(jobs, p["name"])
         nsc += len(scs)
         replay_scenes(run, rec, scs, rng, point_rate=(0.25 if p["name"] == "scenes_triangles" else 1.0))
         if scs:
@@ -509,13 +670,9 @@ def run(run, replay=None):
                 for side in ("below", "above"):
                     if not rec.bands.get((what, m, side)):
                         raise core.MachineryFailure("vacuous: no %s edge with radius just %s the threshold was drawn in the %s model" % (what, side, m))
-    if quick:
-        pplan = [dict(name="proj_sim", BP=2, maxverts=6, simulate=10, depth=7)]
-    else:
-        pplan = [dict(name="proj_triangles", BP=1, maxverts=3), dict(name="proj_sim", BP=3, maxverts=8, simulate=100, depth=9)]
     dims = None
     for p in pplan:
-        pscs, dims = proj_scenes(run, **p)
+        pscs, dims = proj_scenes(jobs, p["name"])
         replay_proj(run, rec, pscs, rng)
         run.extra["projective_scenes"] = run.extra.get("projective_scenes", 0) + len(pscs)
         if pscs:
